@@ -130,8 +130,17 @@ func PipelineStepOutputs(stmts []*gripql.GraphStatement) map[string][]string {
 			} else {
 				out[steps[i]] = []string{"_label"}
 			}
-		case *gripql.GraphStatement_Has:
+		case *gripql.GraphStatement_Has, *gripql.GraphStatement_HasKey,
+			*gripql.GraphStatement_Render, *gripql.GraphStatement_Unwind,
+			*gripql.GraphStatement_Aggregate, *gripql.GraphStatement_Set,
+			*gripql.GraphStatement_Increment, *gripql.GraphStatement_Jump:
+			//these read properties through paths given by the client: the current
+			//element must be loaded, and so must the marks, since a path can
+			//name any of them ($mark.field)
 			out[steps[i]] = []string{"*"}
+			for _, a := range asMap {
+				out[a] = []string{"*"}
+			}
 		}
 	}
 	return out
